@@ -198,11 +198,111 @@ pub fn body(additive0: bool, additive1: bool, target: &'static str, under_a: boo
     std::mem::forget(logger);
 }
 
+/// Smallest shape: two root-only configurations with one appender each (ids 0 and 2), no
+/// declared logger, no failing appender; solver variables: both root levels, the position of the
+/// swap among the yield points (or the re-entrant trigger), the levels of two records.
+fn mk_min(name: &'static str, id: u8, root_level: LevelFilter) -> Config {
+    let a = Appender::builder().build(name, Box::new(Cap { id, fails: false }));
+    Config::verif_from_parts(vec![a], Root::builder().appender(name).build(root_level), vec![])
+}
+
+pub fn body_min(reentrant: bool, witness: bool) {
+    unsafe {
+        HITS = [0; 4];
+        ERRORS = 0;
+        YIELDS = 0;
+        SWAPPED = false;
+    }
+    let (r0, r1) = (any_level_filter(), any_level_filter());
+    let c0 = mk_min("A", 0, r0);
+    let c1 = mk_min("C", 2, r1);
+    let logger = Logger::new_with_err_handler(c0, Box::new(|e: &anyhow::Error| handler(e)));
+    assert!(filter_rank(logger.max_log_level()) == filter_rank(r0), "C02: max level is the most verbose configured level");
+    unsafe {
+        HANDLE = Some(logger.verif_handle());
+        NEXT = Some(c1);
+        log4rs::verif_hooks::YIELD = Some(&YIELD_HOOK);
+        if reentrant {
+            REENTRANT_AT = 0;
+            SWAP_AT = 255;
+        } else {
+            REENTRANT_AT = 255;
+            SWAP_AT = sym::below(6);
+        }
+    }
+    let lvl = any_level();
+    let rec = Record::builder().target("x").level(lvl).build();
+    logger.log(&rec);
+    let got = hits();
+    let mut e0 = [0u8; 4];
+    if level_rank(lvl) <= filter_rank(r0) {
+        e0[0] = 1;
+    }
+    let mut e1 = [0u8; 4];
+    if level_rank(lvl) <= filter_rank(r1) {
+        e1[2] = 1;
+    }
+    let swapped = unsafe { SWAPPED };
+    let is0 = got == e0;
+    let is1 = got == e1;
+    assert!(is0 || is1, "C15: a record is routed entirely under the old or entirely under the new configuration");
+    if !swapped {
+        assert!(is0, "C01: without a swap the record is routed under the installed configuration");
+    }
+    if reentrant {
+        assert!(is0, "C15: a re-entrant swap does not change the routing of the record in flight");
+        assert!(swapped == (e0[0] == 1), "the re-entrant trigger fires exactly when the old appender is reached");
+    }
+    assert!(unsafe { ERRORS } == 0);
+    unsafe {
+        HITS = [0; 4];
+        SWAP_AT = 255;
+        REENTRANT_AT = 255;
+    }
+    let lvl2 = any_level();
+    let rec2 = Record::builder().target("x").level(lvl2).build();
+    logger.log(&rec2);
+    let got2 = hits();
+    let mut f = [0u8; 4];
+    if swapped {
+        if level_rank(lvl2) <= filter_rank(r1) {
+            f[2] = 1;
+        }
+        assert!(got2 == f, "C15: after the swap returned only the new configuration is used");
+        assert!(filter_rank(log::max_level()) == filter_rank(r1), "C02: set_config installs the new maximum as the facade's global maximum");
+        assert!(filter_rank(logger.max_log_level()) == filter_rank(r1));
+    } else {
+        if level_rank(lvl2) <= filter_rank(r0) {
+            f[0] = 1;
+        }
+        assert!(got2 == f);
+    }
+    let md = Metadata::builder().target("x").level(lvl2).build();
+    let thr = if swapped { r1 } else { r0 };
+    assert!(logger.enabled(&md) == (level_rank(lvl2) <= filter_rank(thr)), "C02: enabled() == passes the effective logger's threshold");
+    cover!(swapped && is1 && !is0, "the swap cut in before the snapshot: routed under the new configuration");
+    cover!(swapped && is0 && !is1, "the swap happened after the snapshot: routed under the old configuration");
+    if witness {
+        assert!(false, "WITNESS");
+    }
+    unsafe {
+        log4rs::verif_hooks::YIELD = None;
+        HANDLE = None;
+    }
+    std::mem::forget(logger);
+}
+
 harnesses! {
     common {
         #[cfg_attr(kani, kani::stub(std::backtrace::Backtrace::capture, crate::util::stub_backtrace_capture))]
         #[cfg_attr(kani, kani::stub(<anyhow::Error as std::ops::Drop>::drop, crate::util::stub_anyhow_drop))]
     }
+    #[kani::unwind(6)]
+    fn swap_min() { body_min(false, false) }
+    #[kani::unwind(6)]
+    fn swap_min_witness() { body_min(false, true) }
+    #[kani::unwind(6)]
+    fn swap_min_reentrant() { body_min(true, false) }
     #[kani::unwind(6)]
     fn swap_under_a() { body(true, false, "a::x", true, false, false, false) }
     #[kani::unwind(6)]
